@@ -525,3 +525,184 @@ func (s *Sim) directedChangeViewPrefix(byz int) bool {
 	s.give(l, s.forge(byz, dbft.ChangeViewType, h, 2, &ChView{NewView: 3, Rsn: dbft.CVTimeout, TS: 1}))
 	return s.viol == nil
 }
+
+// directedPrimaryRestartRun: the state "the primary of a view >= 1 proposed, lost its state,
+// was brought back to its view by a recovery message that carries its own proposal, and then
+// hears a backup's answer directly".  View 0 of the height fails for everybody (its proposal is
+// lost), the budgeted amnesia validator X is the primary of view 1; some backups get its
+// proposal, X crashes and restarts, asks for recovery, is given a backup's recovery message and
+// then one of the PrepareResponses that were still travelling.  The seeded network takes over
+// for three more heights.
+func directedPrimaryRestartRun(arm func(*Sim)) func(*Tape, bool) *RunResult {
+	return func(t *Tape, record bool) *RunResult {
+		sc := directedScenario(t, 1)
+		n := len(sc.Fault)
+		for i := range sc.Fault {
+			sc.Fault[i] = FHonest
+		}
+		x := sc.Epochs[0].Vals[primaryOf(sc.Start+1, 1, n)]
+		sc.Fault[x] = FAmnesia
+		sc.Heights = 4
+		sc.MaxTime = int64(sc.TPB) * 200
+		s := NewSim(sc, t)
+		s.record = record
+		s.manual = true
+		arm(s)
+		s.installMapPerm()
+		defer func() { dbft.VerifMapPerm = nil }()
+		for _, n := range s.nodes {
+			n.boot()
+		}
+		if s.directedPrimaryRestartPrefix() {
+			s.note("directed_prefix_completed")
+		} else {
+			s.note("directed_prefix_abandoned")
+		}
+		s.manual = false
+		for i := range s.nodes {
+			s.after(sc.SyncEvery+int64(i), &Event{Kind: EvSyncPoll, Node: i})
+		}
+		if s.viol == nil {
+			s.loop()
+		}
+		return &RunResult{Viol: s.viol, St: s.st, Scen: sc.Summary(), Trace: s.trace, SimCount: 1}
+	}
+}
+
+func (s *Sim) directedPrimaryRestartPrefix() bool {
+	sc := s.sc
+	h := sc.Start + 1
+	var x *Node
+	var others []*Node
+	for _, n := range s.nodes {
+		if n.d == nil || n.d.BlockIndex != h {
+			return false
+		}
+		if n.kind == FAmnesia {
+			x = n
+		} else {
+			others = append(others, n)
+		}
+	}
+	if x == nil {
+		return false
+	}
+	// view 0 fails: nobody gets its proposal, everybody times out; the first time-outs only
+	// produce recovery requests (nobody has been heard yet), the later ones change-view requests
+	for round := 0; round < 4; round++ {
+		done := true
+		for _, n := range s.nodes {
+			if n.d.ViewNumber == 0 {
+				done = false
+			}
+		}
+		if done {
+			break
+		}
+		var batch []*Payload
+		for _, n := range s.nodes {
+			if n.d.ViewNumber != 0 {
+				continue
+			}
+			before := len(s.authentic)
+			s.manualTimeout(n)
+			for _, p := range s.authentic[before:] {
+				if p.sender == n.id && (p.T == dbft.ChangeViewType || p.T == dbft.RecoveryRequestType) {
+					batch = append(batch, p)
+				}
+			}
+		}
+		for _, p := range batch {
+			for _, n := range s.nodes {
+				if n.id != p.sender && n.d.BlockIndex == h {
+					s.give(n, p)
+				}
+			}
+		}
+		if s.viol != nil {
+			return false
+		}
+	}
+	for _, n := range s.nodes {
+		if n.d.BlockIndex != h || n.d.ViewNumber != 1 {
+			return false
+		}
+	}
+	if !x.d.IsPrimary() {
+		return false
+	}
+	// X proposes in view 1 (its timer is zero)
+	if s.sentAt(x, dbft.PrepareRequestType, h, 1) == nil {
+		s.manualTimeout(x)
+	}
+	req := s.sentAt(x, dbft.PrepareRequestType, h, 1)
+	if req == nil {
+		return false
+	}
+	// some backups get the proposal and answer; X hears none of the answers yet
+	k := 1 + int(s.tape.Draw(SFault, uint64(len(others))))
+	var resps []*Payload
+	for _, b := range others[:k] {
+		s.give(b, req)
+		if r := s.sentAt(b, dbft.PrepareResponseType, h, 1); r != nil {
+			resps = append(resps, r)
+		}
+	}
+	if len(resps) == 0 || s.viol != nil {
+		return false
+	}
+	// X loses its state
+	s.fault("crash_between_calls")
+	x.crash()
+	s.fault("restart")
+	x.boot()
+	if x.d == nil || x.d.BlockIndex != h {
+		return false
+	}
+	// it asks around (a fresh node has heard nobody: its time-out is a recovery request) ...
+	before := len(s.authentic)
+	s.manualTimeout(x)
+	var rr *Payload
+	for _, p := range s.authentic[before:] {
+		if p.sender == x.id && p.T == dbft.RecoveryRequestType {
+			rr = p
+		}
+	}
+	if rr == nil {
+		return false
+	}
+	// ... and one of the backups that hold its proposal answers
+	var rec *Payload
+	for _, b := range others[:k] {
+		before = len(s.authentic)
+		s.give(b, rr)
+		for _, p := range s.authentic[before:] {
+			if p.sender == b.id && p.T == dbft.RecoveryMessageType {
+				rec = p
+			}
+		}
+		if rec != nil {
+			break
+		}
+	}
+	if rec == nil || s.viol != nil {
+		return false
+	}
+	s.give(x, rec)
+	if s.viol != nil || x.d == nil {
+		return false
+	}
+	// the answers that were still travelling reach X directly
+	for _, r := range resps {
+		if s.tape.Chance(SFault, 2, 3) {
+			s.give(x, r)
+		}
+		if s.viol != nil {
+			return false
+		}
+	}
+	if x.d.BlockIndex == h && x.d.ViewNumber == 1 && x.d.RequestSentOrReceived() {
+		s.note("restarted_primary_holds_its_own_proposal_again")
+	}
+	return true
+}
